@@ -327,6 +327,14 @@ func (e *Exec) compTerm(s *State, name, sort string) string {
 	// declared at first use; all states share the initial version
 	if !e.discovery {
 		e.vc.add(fmt.Sprintf("(declare-const %s %s)", n, sort))
+		if refComp[name] && e.entryW != "" && e.Con != nil && e.Con.HeapClosed {
+			switch {
+			case strings.HasPrefix(name, "H|") && sort == "(Array Int Int)":
+				e.vc.add(fmt.Sprintf("(assert (forall ((r!q Int)) (! (< (select %s r!q) %s) :pattern ((select %s r!q)))))", n, e.entryW, n))
+			case (strings.HasPrefix(name, "E|") || strings.HasPrefix(name, "M|")) && sort == "(Array Int (Array Int Int))":
+				e.vc.add(fmt.Sprintf("(assert (forall ((a!q Int) (i!q Int)) (! (< (select (select %s a!q) i!q) %s) :pattern ((select (select %s a!q) i!q)))))", n, e.entryW, n))
+			}
+		}
 	}
 	e.compInit[name] = n
 	return n
@@ -366,9 +374,74 @@ func (e *Exec) noteCellWrite(a *ssa.Alloc) {
 
 func (e *Exec) W(s *State) string { return e.compTerm(s, "W", "Int") }
 
-func heapComp(obj types.Type, path string) string  { return "H|" + typeKey(obj) + "|" + path }
-func elemComp(elem types.Type, path string) string { return "E|" + typeKey(elem) + "|" + path }
-func mapComp(mt types.Type, part string) string    { return "M|" + typeKey(mt) + "|" + part }
+func heapComp(obj types.Type, path string) string {
+	n := "H|" + typeKey(obj) + "|" + path
+	noteRefComp(n, obj, path)
+	return n
+}
+func elemComp(elem types.Type, path string) string {
+	n := "E|" + typeKey(elem) + "|" + path
+	noteRefComp(n, elem, path)
+	return n
+}
+func mapComp(mt types.Type, part string) string {
+	n := "M|" + typeKey(mt) + "|" + part
+	if strings.HasPrefix(part, "val") {
+		if m, ok := mt.Underlying().(*types.Map); ok {
+			noteRefComp(n, m.Elem(), part[3:])
+		}
+	}
+	return n
+}
+
+// refComp: components whose slots hold object references (pointers, maps, channels, functions, slice
+// backing arrays, interface payloads). Every reference stored in the heap when a function is entered
+// refers to an object that exists then: an axiom over the entry version of such a component.
+var refComp = map[string]bool{}
+var refCompSeen = map[string]bool{}
+
+func noteRefComp(name string, t types.Type, path string) {
+	if refCompSeen[name] {
+		return
+	}
+	refCompSeen[name] = true
+	toks := strings.Split(strings.TrimPrefix(path, "."), ".")
+	if path == "" {
+		toks = nil
+	}
+	cur := t
+	for i, tok := range toks {
+		st, ok := cur.Underlying().(*types.Struct)
+		if ok {
+			found := false
+			for k := 0; k < st.NumFields(); k++ {
+				if st.Field(k).Name() == tok {
+					cur = st.Field(k).Type()
+					found = true
+					break
+				}
+			}
+			if found {
+				continue
+			}
+		}
+		// a slot suffix of the current type
+		if i != len(toks)-1 {
+			return
+		}
+		switch cur.Underlying().(type) {
+		case *types.Slice:
+			refComp[name] = tok == "arr"
+		case *types.Interface:
+			refComp[name] = tok == "ref"
+		}
+		return
+	}
+	switch cur.Underlying().(type) {
+	case *types.Pointer, *types.Map, *types.Chan, *types.Signature, *types.Array:
+		refComp[name] = true
+	}
+}
 
 // subSlots locates the slots of a sub-value of type t at path inside root.
 func subSlots(root types.Type, path string, t types.Type) (off, n int) {
